@@ -6,8 +6,15 @@ cd "$(dirname "$0")"
 ID="$1"; TIER="${2:-quick}"
 mkdir -p bin evidence replays
 BIN=bin/check
-if ! go build -tags verif -o $BIN ./cmd/check 2>bin/build.err; then
-  if ! go build -o $BIN ./cmd/check 2>>bin/build.err; then
+# VERIF_REPO=<dir> checks another copy of the library (used for background runs on a snapshot)
+MODFLAG=""
+if [ -n "$VERIF_REPO" ]; then
+  sed "s#=> /repo#=> $VERIF_REPO#" go.mod > bin/alt.mod && cp go.sum bin/alt.sum
+  MODFLAG="-modfile=bin/alt.mod"
+fi
+export VERIF_MODFLAG="$MODFLAG"
+if ! go build $MODFLAG -tags verif -o $BIN ./cmd/check 2>bin/build.err; then
+  if ! go build $MODFLAG -o $BIN ./cmd/check 2>>bin/build.err; then
     cat bin/build.err
     echo "BUILD-FAILED property=$ID"
     exit 2
